@@ -1482,7 +1482,9 @@ class Request:
 
         # PERF: Use if..in since it is a good all-around performer; we don't
         #       know how likely params are to be specified by clients.
-        if name in params:
+        # NOTE: With auto_parse_qs_csv enabled and blank values dropped, 'k=,'
+        #   is stored as an empty list; there is no value to return then.
+        if name in params and params[name] != []:
             # NOTE(warsaw): If the key appeared multiple times, it will be
             # stored internally as a list.  We do not define which one
             # actually gets returned, but let's pick the last one for grins.
@@ -1584,7 +1586,7 @@ class Request:
 
         # PERF: Use if..in since it is a good all-around performer; we don't
         #       know how likely params are to be specified by clients.
-        if name in params:
+        if name in params and params[name] != []:
             val_str = params[name]
             if isinstance(val_str, list):
                 val_str = val_str[-1]
@@ -1697,7 +1699,7 @@ class Request:
 
         # PERF: Use if..in since it is a good all-around performer; we don't
         #       know how likely params are to be specified by clients.
-        if name in params:
+        if name in params and params[name] != []:
             val_str = params[name]
             if isinstance(val_str, list):
                 val_str = val_str[-1]
@@ -1805,7 +1807,7 @@ class Request:
 
         # PERF: Use if..in since it is a good all-around performer; we don't
         #       know how likely params are to be specified by clients.
-        if name in params:
+        if name in params and params[name] != []:
             val_str = params[name]
             if isinstance(val_str, list):
                 val_str = val_str[-1]
@@ -1913,7 +1915,7 @@ class Request:
 
         # PERF: Use if..in since it is a good all-around performer; we don't
         #       know how likely params are to be specified by clients.
-        if name in params:
+        if name in params and params[name] != []:
             val_str = params[name]
             if isinstance(val_str, list):
                 val_str = val_str[-1]
